@@ -14,6 +14,7 @@
 package fschannel
 
 import (
+	"bytes"
 	"fmt"
 	"os"
 	"time"
@@ -92,38 +93,54 @@ func (f *rotateFile) Write(p []byte) (int, error) {
 
 	written := 0
 
-	for f.pos+int64(len(p)) > f.maxSize {
-		j := f.maxSize - int64(f.pos)
+	for len(p) > 0 {
+		// never split a line: find the complete lines that still fit in the current file
+		fit := f.maxSize - f.pos
 
-		for ; j > 0; j-- {
-			// line endings windows?
-			if p[j] == '\n' {
+		end := 0
+		for end < len(p) {
+			next := len(p)
+			if i := bytes.IndexByte(p[end:], '\n'); i >= 0 {
+				next = end + i + 1
+			}
+
+			if int64(next) > fit {
 				break
+			}
+
+			end = next
+		}
+
+		if end == 0 {
+			if f.pos > 0 {
+				// the next line does not fit anymore, rotate
+				if err := f.rotate(); err != nil {
+					return written, err
+				}
+
+				continue
+			}
+
+			// an empty file takes a line that is itself larger than the maximum size
+			end = len(p)
+			if i := bytes.IndexByte(p, '\n'); i >= 0 {
+				end = i + 1
 			}
 		}
 
-		n, err := f.f.Write(p[:j])
-		if err != nil {
-			return n, err
-		}
+		n, err := f.f.Write(p[:end])
 
+		f.pos += int64(n)
 		written += n
 
-		// rotate
-		if err := f.rotate(); err != nil {
+		if err != nil {
 			return written, err
 		}
 
-		// skip \n
-		written += 1
-
-		p = p[j+1:]
+		p = p[end:]
 	}
 
-	n, err := f.f.Write(p)
-
-	f.pos += int64(n)
-	return written + n, err
+	return written, nil
 }
 
 func (f *rotateFile) Close() error {
